@@ -19,6 +19,7 @@ import (
 	"github.com/ethereum/go-ethereum/crypto"
 
 	mhub2 "github.com/MinterTeam/mhub2/module/x/mhub2"
+	"github.com/MinterTeam/mhub2/module/x/mhub2/keeper"
 	"github.com/MinterTeam/mhub2/module/x/mhub2/types"
 	"github.com/MinterTeam/mhub2/module/x/oracle"
 	oraclekeeper "github.com/MinterTeam/mhub2/module/x/oracle/keeper"
@@ -404,6 +405,10 @@ func (e *Env) Exec(line string) string {
 			}
 			return fmt.Sprintf("lastnonce %d", r.EventNonce)
 		})
+	case "export_import":
+		e.Init()
+		e.Flush()
+		return e.pure(func() string { e.exportImport(); return "ok" })
 	case "ckpt_set":
 		return e.pure(func() string {
 			tx := types.SignerSetTx{Nonce: u(w[2]), Signers: parseSigners(w[3])}
@@ -730,3 +735,57 @@ func txHashOf(tag string) string {
 
 var _ = bytes.Compare
 var _ = authtypes.ModuleName
+
+// exportImport replaces the environment by a fresh instance initialised from the exported
+// genesis of the bridge and oracle modules (bank balances are carried over as the bank module's
+// own genesis would).
+func (e *Env) exportImport() {
+	ctx := e.rootCtx
+	gs := keeper.ExportGenesis(ctx, e.k)
+	bz := e.cdc.MustMarshalJSON(&gs)
+	ogs := oraclekeeper.ExportGenesis(ctx, e.ok)
+	obz := e.cdc.MustMarshalJSON(&ogs)
+	type balEntry struct {
+		addr sdk.AccAddress
+		coin sdk.Coin
+	}
+	var bals []balEntry
+	e.bank.IterateAllBalances(ctx, func(addr sdk.AccAddress, c sdk.Coin) bool {
+		bals = append(bals, balEntry{addr, c})
+		return false
+	})
+	ne := NewEnv(e.useRealOracle)
+	ne.staking = e.staking
+	ne.k = ne.k.SetStakingKeeper(e.staking)
+	ne.k.StakingKeeper = e.staking
+	ne.msg = keeper.NewMsgServerImpl(ne.k)
+	ne.ok.StakingKeeper = e.staking
+	ne.oracle.prices, ne.oracle.holders = e.oracle.prices, e.oracle.holders
+	ne.height, ne.unixTime = e.height, e.unixTime
+	ne.rootCtx = ne.rootCtx.WithBlockHeader(ctx.BlockHeader())
+	var gs2 types.GenesisState
+	ne.cdc.MustUnmarshalJSON(bz, &gs2)
+	keeper.InitGenesis(ne.rootCtx, ne.k, gs2)
+	var ogs2 oracletypes.GenesisState
+	ne.cdc.MustUnmarshalJSON(obz, &ogs2)
+	oraclekeeper.InitGenesis(ne.rootCtx, ne.ok, ogs2)
+	ne.params = *gs2.Params
+	ne.tokens = gs2.TokenInfos.TokenInfos
+	ne.inited = true
+	for _, b := range bals {
+		coins := sdk.Coins{b.coin}
+		if !b.coin.Amount.IsPositive() {
+			continue
+		}
+		if err := ne.bank.MintCoins(ne.rootCtx, types.ModuleName, coins); err != nil {
+			panic(err)
+		}
+		if !b.addr.Equals(ne.moduleAddr) {
+			if err := ne.bank.SendCoinsFromModuleToAccount(ne.rootCtx, types.ModuleName, b.addr, coins); err != nil {
+				panic(err)
+			}
+		}
+	}
+	ne.ctx = ne.rootCtx
+	*e = *ne
+}
